@@ -186,6 +186,8 @@ pub fn decode_expression<'brand, I: Iterator<Item = u8>, J: Jet>(
     for data in (nodes.len() - 1, &nodes[..]).post_order_iter::<InternalSharing>() {
         // Check canonical order as we go
         if data.index != data.node.0 {
+            #[cfg(feature = "verif-hooks")]
+            crate::verif::probe(4);
             return Err(Error::NotInCanonicalOrder);
         }
 
@@ -221,6 +223,8 @@ pub fn decode_expression<'brand, I: Iterator<Item = u8>, J: Jet>(
             DecodeNode::Fail(entropy) => Node(ArcNode::fail(ctx, *entropy)),
             DecodeNode::Hidden(cmr) => {
                 if !hidden_set.insert(*cmr) {
+                    #[cfg(feature = "verif-hooks")]
+                    crate::verif::probe(5);
                     return Err(Error::SharingNotMaximal);
                 }
                 Hidden(*cmr)
